@@ -36,8 +36,9 @@ func degenGrid() []degen {
 			}
 		}
 	}
-	// zero channels with non-zero length/capacity requested
-	g = append(g, degen{0, 3, 7})
+	// zero channels with non-zero length/capacity requested, also Length > Capacity
+	// (nothing is allocated for zero channels, so every such allocator is inert)
+	g = append(g, degen{0, 3, 7}, degen{0, 4, 2}, degen{0, 3, 0}, degen{0, 9, 8})
 	return g
 }
 
